@@ -96,6 +96,19 @@ func recovery(idx int64, r *rand.Rand) {
 	if kind == "gradient" && r.IntN(8) == 0 {
 		spec.ProbeInt = limit.ProbeDisabled // no "next probe": the healthy run must climb and stay up however long it is
 	}
+	if kind == "gradient" && r.IntN(8) == 0 {
+		// the default ceiling (1000 = the size of the pre-computed square-root table) with the default queue allowance,
+		// started at or just below it: the healthy run sits exactly on the ceiling
+		spec.Max, spec.QueueKind, spec.QueueArg = 1000, "sqrt", 4
+		spec.Initial = 1000 - []int{0, 0, 1, 30}[r.IntN(4)]
+		if spec.Min > spec.Initial {
+			spec.Min = 1
+		}
+		if r.IntN(2) == 0 {
+			spec.Smoothing = 1
+		}
+		rt.Count("gradient_recovery_runs_at_the_default_ceiling", 1)
+	}
 	if kind != "aimd" && r.IntN(4) == 0 {
 		spec.Debug = true // a logger with debug enabled must not change what the algorithm does
 		rt.Count("recovery_runs_with_a_debug_logger", 1)
